@@ -48,7 +48,8 @@ func (runInfo *runInfoStruct) invokeLetExpr() {
 }
 
 // freezeOperands evaluates the operands of a container expression that is itself
-// an index or member expression (the a[i] of a[i][j] = v, the a[i] of a[i].k = v)
+// an index, member, slice or dereference expression (the a[i] of a[i][j] = v, the
+// a[i] of a[i].k = v, the a[i:j] of a[i:j][k] = v, the *p of (*p)[k] = v)
 // and returns the same expression over those values. The container is read
 // through it, and a store that has to put a new container back (an append at
 // index len, the first entry of a nil map, a string element) writes through it
@@ -71,6 +72,29 @@ func (runInfo *runInfoStruct) freezeOperands(expr ast.Expr) (ast.Expr, bool) {
 		frozen.Index = &ast.LiteralExpr{Literal: runInfo.rv}
 		return &frozen, true
 	case *ast.MemberExpr:
+		runInfo.expr = expr.Expr
+		runInfo.invokeExpr()
+		if runInfo.err != nil {
+			return nil, false
+		}
+		frozen := *expr
+		frozen.Expr = &ast.LiteralExpr{Literal: runInfo.rv}
+		return &frozen, true
+	case *ast.SliceExpr:
+		frozen := *expr
+		for _, operand := range []*ast.Expr{&frozen.Item, &frozen.Begin, &frozen.End, &frozen.Cap} {
+			if *operand == nil {
+				continue
+			}
+			runInfo.expr = *operand
+			runInfo.invokeExpr()
+			if runInfo.err != nil {
+				return nil, false
+			}
+			*operand = &ast.LiteralExpr{Literal: runInfo.rv}
+		}
+		return &frozen, true
+	case *ast.DerefExpr:
 		runInfo.expr = expr.Expr
 		runInfo.invokeExpr()
 		if runInfo.err != nil {
